@@ -43,3 +43,12 @@ Theorem c02_incomplete_never_clean : forall sshv a hs hs1 st,
   (forall e, audit_exit sshv a hs hs1 st <> Uncaught e) ->
   audit_exit sshv a hs hs1 st = Exit exit_CONNECTION_ERROR.
 Proof. exact bad_handshake_exit1. Qed.
+
+(* the status update is the statement of the current source: output_algorithm()'s `if level == 'fail': ... elif level == 'warn' and
+   program_retval != exitcodes.FAILURE: ...`, translated by the T1c translator on every run (gen/Tables.v), equals the model's status_step *)
+From VGen Require Import Tables.
+From VProofs Require Import TieC02.
+Theorem c02_tie_status_step : forall st l, status_step st l = src_status_step st (level_text l).
+Proof. exact tie_status_step. Qed.
+Theorem c02_tie_status_step_other : forall st s, s <> "fail"%string -> s <> "warn"%string -> src_status_step st s = st.
+Proof. exact tie_status_step_other. Qed.
